@@ -129,7 +129,35 @@ def run_archmon(prop, tier, t0):
                            ], required_counters=spec['req'])
 
 
-ENGINES = {'C19': run_valmon, 'C03': run_archmon, 'C08': run_archmon}
+def run_procmon(prop, tier, t0):
+    from kv import procmon
+    if prop == 'C04':
+        opts = {'quick': {'cases': 320, 'budget_s': 55}, 'thorough': {'cases': 12000, 'budget_s': 800}}[tier]
+        req = ['c04_reads_same_handle', 'c04_reads_new_handle', 'c04_reads_new_process', 'c04_reads_after_exit',
+               'c04_rebuilds_state', 'c04_rebuilds_copy', 'c04_rebuilds_dill']
+        floor = 60
+        anchors = ['file_import_reader', 'dir_import_reader']
+    else:
+        opts = {'quick': {'cells': 60, 'sessions': 8, 'rounds': 2, 'budget_s': 50},
+                'thorough': {'cells': 200, 'sessions': 20, 'rounds': 40, 'budget_s': 800}}[tier]
+        req = ['c17_key_comparisons', 'c17_sessions_with_loads']
+        floor = 300
+        anchors = []
+    merged, problems = common.run_shards('procmon', prop, tier, common.NCPU, opts,
+                                         timeout=opts['budget_s'] * 3 + 180)
+    if prop == 'C17' and merged['counters'].get('c17_distinct_hash_salts', 0) < 3 * common.NCPU:
+        pass
+    return common.conclude(prop, tier, t0, merged, problems, procmon.RULES[prop], floor, 'procmon',
+                           assumptions=ASSUME_COMMON + [
+                               'reader placements: same handle, new handle in the writer process, new process while '
+                               'the writer is alive, new process after it exited; half of the C04 cases run with '
+                               'bytecode writing enabled (PYTHONDONTWRITEBYTECODE unset)',
+                               'C17 argument values have process-independent repr/pickle (no sets of strings, no '
+                               'address-based reprs); each process shuffles keyword order independently',
+                           ], required_counters=req, required_anchors=anchors)
+
+
+ENGINES = {'C19': run_valmon, 'C03': run_archmon, 'C08': run_archmon, 'C04': run_procmon, 'C17': run_procmon}
 for _p in CACHEMON:
     ENGINES[_p] = run_cachemon
 for _p in KEYMON:
